@@ -24,14 +24,24 @@ def fields(ctx):
             ctx.int("sf", 0, 3), ctx.int("sc", 0, 16383), ctx.int("dl", 0, 65535))
 
 
-def mk_header(ver, ptype, shf, apid, sf, sc, dl):
-    return SpacePacketHeader(packet_type=PacketType(ptype), apid=apid, seq_count=sc, data_len=dl,
+def mk_header(ver, ptype, shf, apid, sf, sc, dl, pt=None):
+    return SpacePacketHeader(packet_type=PacketType(ptype) if pt is None else pt, apid=apid, seq_count=sc, data_len=dl,
                              sec_header_flag=(shf != 0), seq_flags=SequenceFlags(sf), ccsds_version=ver)
 
 
-def h_pack(ctx, twin=False):
+# the packet type is documented as "0 for Telemetery, 1 for Telecommands": callers pass the enum member, a plain integer or a
+# bool; the encoding must not depend on which
+PTYPE_FORMS = {"tm-member": (0, PacketType.TM), "tc-member": (1, PacketType.TC), "tm-int": (0, 0), "tc-int": (1, 1),
+               "tc-true": (1, True), "tm-false": (0, False)}
+
+
+def h_pack(ctx, twin=False, form=None):
     ver, ptype, shf, apid, sf, sc, dl = f = fields(ctx)
-    h = mk_header(*f)
+    pt = None
+    if form is not None:
+        ptype, pt = PTYPE_FORMS[form]
+        f = (ver, ptype, shf, apid, sf, sc, dl)
+    h = mk_header(*f, pt=pt)
     raw = h.pack()
     ref = ctx.bytes_of(ref_octets(*f))
     ctx.holds("pack==reference", raw == ref)
@@ -45,7 +55,7 @@ def h_pack(ctx, twin=False):
         u.seq_flags == sf, u.seq_count == sc, u.data_len == dl))
     ctx.holds("packet_id.raw", h.packet_id.raw() == ((ptype << 12) | (shf << 11) | apid))
     ctx.holds("psc.raw", h.packet_seq_control.raw() == ((sf << 14) | sc))
-    h2 = SpacePacketHeader.from_composite_fields(PacketId(PacketType(ptype), shf != 0, apid),
+    h2 = SpacePacketHeader.from_composite_fields(PacketId(PacketType(ptype) if pt is None else pt, shf != 0, apid),
                                                  PacketSeqCtrl(SequenceFlags(sf), sc), dl, ver)
     ctx.holds("from_composite_fields", h2.pack() == ref)
     pack_hands_out_fresh_buffers(ctx, h.pack, ref)
@@ -130,6 +140,15 @@ def h_refuse(ctx, which, side):
         ctx.holds("in-range accepted", e is None, exc_name(e))
     else:
         ctx.holds("out-of-range refused with ValueError", isinstance(e, ValueError), exc_name(e))
+    if which == "dl":
+        # the alternative constructor takes the same data length
+        e4, h4 = call(SpacePacketHeader.from_composite_fields, PacketId(PacketType.TM, False, 1),
+                      PacketSeqCtrl(SequenceFlags.UNSEGMENTED, 2), v)
+        ctx.holds("from_composite_fields: data length", (e4 is None) if side == "ok" else isinstance(e4, ValueError), exc_name(e4))
+        e5, h5 = call(SpacePacketHeader.from_composite_fields, PacketId(PacketType.TM, False, 1),
+                      PacketSeqCtrl(SequenceFlags.UNSEGMENTED, 2), v, 3)
+        ctx.holds("from_composite_fields with version: data length", (e5 is None) if side == "ok" else isinstance(e5, ValueError),
+                  exc_name(e5))
     if which == "apid":
         e2, _ = call(PacketId, PacketType.TM, False, v)
         ctx.holds("PacketId ctor", (e2 is None) if side == "ok" else isinstance(e2, ValueError), exc_name(e2))
@@ -154,6 +173,14 @@ def h_boundary(ctx, which):
         ctx.holds("accepted only in range", inr)
     else:
         ctx.holds("refused only out of range, with ValueError", sym_and(sym_not(inr), isinstance(e, ValueError)), exc_name(e))
+    if which == "dl":
+        e, h = call(SpacePacketHeader.from_composite_fields, PacketId(PacketType.TC, True, 1),
+                    PacketSeqCtrl(SequenceFlags.UNSEGMENTED, 2), v)
+        if e is None:
+            ctx.holds("from_composite_fields: accepted only in range", inr)
+        else:
+            ctx.holds("from_composite_fields: refused only out of range, with ValueError",
+                      sym_and(sym_not(inr), isinstance(e, ValueError)), exc_name(e))
 
 
 def h_helpers(ctx):
@@ -193,6 +220,8 @@ def cases(tier):
     cs = [Case("pack", "pack", h_pack, bounds="all 2^48 header values symbolic"),
           Case("pack-twin", "pack", h_pack, dict(twin=True), expect_violation=True, bounds="reachability twin"),
           Case("from_raw", "from_raw", h_from_raw, bounds="all 13-bit / 16-bit words"),
+          *[Case("pack-" + form, "pack", h_pack, dict(form=form), bounds="packet type handed over as %r, all other fields symbolic" % (
+              PTYPE_FORMS[form][1],)) for form in PTYPE_FORMS],
           Case("helpers", "helpers", h_helpers, bounds="all field tuples")]
     for base in tier_pick(tier, (0x1cd2, 0x0040), (0x1cd2, 0x0040, 0x0fff, 0x1000, 0x07c0)):
         cs.append(Case("from_raw-alias-%04x" % base, "from_raw", h_from_raw_alias, dict(base=base),
